@@ -797,9 +797,80 @@ def run_context_kinds(job):
     return {"problems": problems}
 
 
+def run_cancel(job):
+    """A caller cancels the Future of a job that is still pending (it gives up waiting).  The job itself may or may not run; what
+    matters is everybody else: the Futures of the jobs enqueued before and after it complete with their own results."""
+    import logging
+    import threading
+    from concurrent.futures import CancelledError
+    from semantiva.examples.test_utils import FloatDataType, FloatMultiplyOperation
+    from semantiva.execution.executor.executor import SequentialSemantivaExecutor
+    from semantiva.execution.job_queue.queue_orchestrator import QueueSemantivaOrchestrator
+    from semantiva.execution.job_queue.worker import worker_loop
+    from semantiva.execution.transport.in_memory import InMemorySemantivaTransport
+    from semantiva.logger.logger import Logger
+
+    def quiet(name):
+        lg = logging.getLogger(name)
+        lg.handlers[:] = [logging.NullHandler()]
+        lg.propagate = False
+        lg.setLevel(logging.CRITICAL)
+        return Logger(logger=lg, console_output=False)
+    transport = InMemorySemantivaTransport()
+    orch = QueueSemantivaOrchestrator(transport, logger=quiet("master"))
+    master = threading.Thread(target=orch.run_forever, daemon=True)
+    stop = threading.Event()
+    problems = []
+    try:
+        cfg = lambda f: [{"processor": FloatMultiplyOperation, "parameters": {"factor": f}}]  # noqa: E731
+        # enqueue three jobs BEFORE master and worker start, cancel the middle one while it is pending, then start them
+        futs = [orch.enqueue(cfg(k + 2), data=FloatDataType(10.0), return_future=True) for k in range(3)]
+        cancelled = futs[1].cancel()
+        master.start()
+        threading.Thread(target=worker_loop, args=(0, transport, SequentialSemantivaExecutor(), stop, quiet("worker0")), daemon=True).start()
+        later = []
+        import time as _t
+        _t.sleep(0.5)
+        later = [orch.enqueue(cfg(k + 7), data=FloatDataType(10.0), return_future=True) for k in range(2)]
+        want = {0: 20.0, 2: 40.0}
+        for k, f in list(enumerate(futs)) + [(10 + i, f) for i, f in enumerate(later)]:
+            if k == 1:
+                continue
+            expect = want.get(k, 10.0 * (k - 10 + 7))
+            try:
+                data, _ctx = f.result(timeout=8)
+                if data.data != expect:
+                    problems.append(["C15:wrong-result:after-a-cancelled-future", "job %d: %r, direct execution gives %r" % (k, data.data, expect)])
+            except CancelledError:
+                problems.append(["C15:wrong-result:after-a-cancelled-future", "job %d reports cancelled although only job 1 was cancelled" % k])
+            except Exception as ex:  # noqa
+                if type(ex).__name__ == "TimeoutError":
+                    problems.append(["C15:future-never-completes:after-a-cancelled-future",
+                                     "job %d (enqueued %s the cancelled one): Future still pending after 8 s; master thread alive: %s; cancel() returned %s"
+                                     % (k, "after" if k > 1 else "before", master.is_alive(), cancelled)])
+                    break
+                problems.append(["C15:wrong-result:after-a-cancelled-future", "job %d: raises %r" % (k, ex)])
+    finally:
+        try:
+            orch.stop()
+        except Exception:  # noqa
+            pass
+        stop.set()
+    return {"problems": problems}
+
+
 def main():
     job = json.load(sys.stdin)
     L = load()
+    if "cancel" in job:
+        try:
+            out = run_cancel(job)
+        except Exception as ex:  # noqa
+            import traceback
+            out = {"error": "%r\n%s" % (ex, traceback.format_exc()[-1200:])}
+        sys.stdout.write(json.dumps(out))
+        sys.stdout.flush()
+        os._exit(0)
     if "context_kinds" in job:
         try:
             out = run_context_kinds(job)
